@@ -2,8 +2,8 @@
    Statements only; proofs in Proofs/C08.v (codecs) and Proofs/C08_lines.v (lines, ids, alignment).
    The definitions are those of Model/C08.v, the same ones the correspondence evaluates on the
    numbers the implementation produced (harness/props/c08.py). *)
-From PV Require Import Lib.Base Lib.Round Model.C12 Model.C08 Model.C08_attrs Model.C08_sigs Model.C08_glue Model.C08_Hist Gen.C08_Vocab
-  Proofs.C08 Proofs.C08_lines Proofs.C08_perf Proofs.C08_attrs Proofs.C08_sigs Proofs.C08_glue Proofs.C08_hist.
+From PV Require Import Lib.Base Lib.Round Model.C12 Model.C08 Model.C08_attrs Model.C08_sigs Model.C08_glue Model.C08_Hist Model.C08_file Gen.C08_Vocab
+  Proofs.C08 Proofs.C08_lines Proofs.C08_perf Proofs.C08_attrs Proofs.C08_sigs Proofs.C08_glue Proofs.C08_hist Proofs.C08_file.
 From Coq Require Import QArith Qabs Sorting.Sorted Sorting.Permutation String.
 #[local] Open Scope Z_scope.
 
@@ -516,3 +516,89 @@ Example mhistory_memo_refuted :
   (mobs mstep_memo s ops <> mspec (m_lines s) ops) /\
   mobs mstep s ops = [OAlign [EMatch 1 10; EInsertion 11]; OAlign [EMatch 1 10]; ONotes [10]].
 Proof. split; [vm_compute; discriminate | vm_compute; reflexivity]. Qed.
+
+(* ---------------- round j: the file as a whole (Model/C08_file.v) ---------------- *)
+
+(* O2 clock units and rate: for EVERY version text, every combination of the optional texts of
+   save_match (given or not, also texts that repeat attribute names) and every ppq / mpq given or left
+   out, the clock the loader finds in the header built by the exporter (header_lines dict filtered
+   through header_order, MatchFile.info = first line with the attribute) is the clock asked for, 480 /
+   500000 for an argument left out *)
+Theorem header_clock : forall ver o ppq mpq,
+  clock_of (header_of ver o ppq mpq) = Some (arg_ppq ppq, arg_mpq mpq).
+Proof. exact header_clock_lemma. Qed.
+Print Assumptions header_clock.
+
+(* every header line is found under its attribute with the text given ("-" when not given); 8 lines *)
+Theorem header_texts : forall ver o ppq mpq,
+  let h := header_of ver o ppq mpq in
+  info "matchFileVersion" h = Some (HStr ver) /\
+  info "performer" h = Some (HStr (dash (o_performer o))) /\
+  info "piece" h = Some (HStr (dash (o_piece o))) /\
+  info "composer" h = Some (HStr (dash (o_composer o))) /\
+  info "scoreFileName" h = Some (HStr (dash (o_score_fn o))) /\
+  info "midiFileName" h = Some (HStr (dash (o_perf_fn o))) /\
+  info "midiClockUnits" h = Some (HInt (arg_ppq ppq)) /\
+  info "midiClockRate" h = Some (HInt (arg_mpq mpq)) /\
+  List.length h = 8%nat.
+Proof. exact header_texts_lemma. Qed.
+Print Assumptions header_texts.
+
+(* whatever info lines follow the header (also further clock lines), the clock found is the header's *)
+Theorem header_clock_first : forall ver o ppq mpq more,
+  clock_of (header_of ver o ppq mpq ++ more) = Some (arg_ppq ppq, arg_mpq mpq).
+Proof. exact header_clock_first_lemma. Qed.
+Print Assumptions header_clock_first.
+
+(* one leg at the level of the FILE (the loader takes the clock from the header, not from the call):
+   always defined, returns the clock asked for, the notes of the per-note leg and the pedal stream of
+   ped_roundtrip -- so perf_leg*, pedal_* apply to what load_match returns *)
+Theorem file_leg_is_leg : forall ver o c ns cs,
+  file_leg ver o c (ns, cs) =
+  Some (arg_ppq (fst c), arg_mpq (snd c),
+        map (leg (arg_ppq (fst c)) (arg_mpq (snd c))) ns,
+        ped_roundtrip (arg_ppq (fst c)) (arg_mpq (snd c)) cs).
+Proof. exact file_leg_lemma. Qed.
+Print Assumptions file_leg_is_leg.
+
+(* a chain of ANY number of legs with any positive clocks: defined, no note lost or added, pitch and
+   velocity unchanged, onset and offset moved by at most the sum of the half ticks of the clocks used *)
+Theorem legs_chain : forall ver o cl ns cs, Forall clock_pos cl ->
+  exists ns' cs', legs ver o cl (ns, cs) = Some (ns', cs') /\
+    List.length ns' = List.length ns /\
+    forall i p, nth_error ns i = Some p ->
+      exists r, nth_error ns' i = Some r /\
+        p_pitch r = p_pitch p /\ p_vel r = p_vel p /\
+        (Qabs (p_on r - p_on p) <= drift cl)%Q /\ (Qabs (p_off r - p_off p) <= drift cl)%Q.
+Proof. exact (fun ver o => legs_spec_lemma ver o). Qed.
+Print Assumptions legs_chain.
+
+(* the last leg alone decides ticks and pedal lines: the result of a chain is the per-note leg, in the
+   LAST clock asked for, of the result of the chain before it (no clock is carried along) *)
+Theorem legs_chain_last : forall ver o cl c ns cs,
+  legs ver o (cl ++ [c]) (ns, cs) =
+  match legs ver o cl (ns, cs) with
+  | Some (ms, ds) => Some (map (leg (arg_ppq (fst c)) (arg_mpq (snd c))) ms,
+                           ped_roundtrip (arg_ppq (fst c)) (arg_mpq (snd c)) ds)
+  | None => None
+  end.
+Proof. exact (fun ver o => legs_last_lemma ver o). Qed.
+Print Assumptions legs_chain_last.
+
+(* load_match(first_note_at_zero=...) on ANY file: off = nothing changes; on = no note lost, pitch, velocity
+   and sounding length unchanged, the seconds of every note still are the seconds of its ticks in the
+   file's clock, and when every onset tick is positive the earliest note is at tick 0 / 0 s and no tick
+   is negative *)
+Theorem first_note_at_zero_consistent : forall ppq mpq fl,
+  0 < ppq -> 0 < mpq ->
+  let l := map (imp_note ppq mpq) fl in
+  let r := first_at_zero true l in
+  first_at_zero false l = l /\
+  List.length r = List.length l /\
+  Forall (ticks_ok ppq mpq) r /\
+  (forall i n, nth_error l i = Some n -> exists n', nth_error r i = Some n' /\
+      p_pitch n' = p_pitch n /\ p_vel n' = p_vel n /\ (p_off n' - p_on n' == p_off n - p_on n)%Q) /\
+  ((forall f, In f fl -> 0 < f_on f) -> fl <> [] ->
+     (exists n', In n' r /\ stored_on n' = 0 /\ (p_on n' == 0)%Q) /\ forall n', In n' r -> 0 <= stored_on n').
+Proof. exact first_zero_lemma. Qed.
+Print Assumptions first_note_at_zero_consistent.
